@@ -89,21 +89,42 @@ def run_history(cfg, hist):
         raise BlockRaised('%s: %s' % (type(e).__name__, str(e)[:120]))
 
 
-def _run_history(cfg, hist):
+def _run_history(cfg, hist, chunked=None):
     import py4hw
     from .common import quiet
+    if chunked is None:
+        chunked = (len(hist) + sum(hist[0]) if hist else 0) % 2 == 1      # half of the histories, reproducibly
     with quiet():
         hw = py4hw.HWSystem()
         ins = [hw.wire('i%d' % k, w) for k, w in enumerate(cfg['iw'])]
         outs = [hw.wire('o%d' % k, w) for k, w in enumerate(cfg['ow'])]
         cfg['mk'](hw, ins, outs)
         sim = hw.getSimulator()
+        seen = []
+
+        class L:
+            def simulatorUpdated(self_):
+                seen.append([o.get() for o in outs])
+        sim.addListener(L())
         rows = []
-        for iv in hist:
-            for w, x in zip(ins, iv):
+        k = 0
+        while k < len(hist):
+            # maximal runs of identical input vectors may be simulated by ONE clk(n) call; the per-cycle outputs then come
+            # from a simulator listener (n single-cycle calls and one n-cycle call are the same to the user)
+            n = 1
+            if chunked:
+                while k + n < len(hist) and hist[k + n] == hist[k] and n < 4:
+                    n += 1
+            for w, x in zip(ins, hist[k]):
                 w.put(x)
             sim.propagateAll()
             pre = [o.get() for o in outs]
-            sim.clk(1)
-            rows.append(list(iv) + pre + [o.get() for o in outs])
+            del seen[:]
+            sim.clk(n)
+            post = list(seen)
+            if len(post) != n:
+                post = (post + [[o.get() for o in outs]] * n)[:n]
+            for j in range(n):
+                rows.append(list(hist[k + j]) + (pre if j == 0 else post[j - 1]) + post[j])
+            k += n
     return rows
